@@ -7,8 +7,10 @@ nom semantics modelled (nom 7.1.3, `complete` flavour, no `cut`, so the only err
   every combinator; the three places of filter.rs that could panic return it explicitly);
 * `alt` = ordered choice, the next branch is tried only on `err`;
 * `many0 / many1 / fold_many0` stop at the first `err` of the element parser, and fail with `err`
-  when the element parser succeeds without consuming (the "infinite loop check");
-  the loop is a recursion on a fuel argument initialised to `|input| + 1`;
+  when the element parser succeeds without consuming (the "infinite loop check": nom tests
+  `rest.len() == input.len()`, the model `¬ rest.len() < input.len()`, the same thing for parsers that
+  return a suffix of their input); the loop is a recursion on a fuel argument initialised to
+  `|input| + 1`, which the completeness theorems show is never the reason for a rejection;
 * `map_res / verify` turn a rejection into `err`; `opt`, `peek`, `recognize`, `preceded`,
   `terminated`, `delimited`, `tag`, `take_while`, `take_while1`, `digit1`, `be_u8` as in nom.
 -/
